@@ -169,4 +169,70 @@ def build(ctx):
             hs.append(P.Harness("%s_%s_widelen_%s_cxx17" % (schd.ns, mname, label), hgen.harness([u], body), [u], unwind=4, track=True, cap=ctx.q(600, 1200), backends=["minisat", "kissat"],
                                 desc="%s.%s: %s with the <data> length prefix anywhere in its %d-bit type on a view bound to malloc(n), n in 0..28" % (schd.ns, mname, label, 8 * lsz),
                                 bounds={"NMAX": 28, "length": "full range of the length type", "std": "c++17"}))
+    # every <data> container operation on a view bound to malloc(n): the length prefix already in the buffer is ANY value up to NMAX+6 (stale / hostile: larger than the view allows),
+    # arguments are valid for a vector of that size; handler-or-in-bounds, and no handler when old and new contents fit
+    import c13
+    dsel = ("uint8le_char", "uint16be_uint8", "uint64le_char") if ctx.quick else ("uint8le_char", "uint8be_int8", "uint16le_char", "uint16be_uint8", "uint32le_uint8", "uint32be_char", "uint64le_char", "uint64be_uint8")
+    for inst in [i for i in c13.insts() if i[0] in dsel]:
+        (I, v_, l_, en_, lsz, be) = inst
+        for std in (("17",) if ctx.quick else ("11", "17", "20")):
+            ud = ctx.lower("c13", c13.cpp([inst]), std=std, mode="checked")
+            text = dataop_harness(ud, inst)
+            # the allocation size is enumerated (one query per n): a symbolic malloc size makes every tracked access of the shifting loops a case split over n
+            # (measured: > 600 s per operation with n symbolic, 2-3 s with n fixed)
+            ns = sorted({0, max(lsz - 1, 0), lsz, lsz + 1, lsz + 2, lsz + 4}) if ctx.quick else list(range(0, lsz + 7))
+            for k, opname in enumerate(c13.OPS):
+                if opname == "observers": continue
+                for nv in ns:
+                    if nv < lsz and k in (1, 7, 19, 20, 21, 22): continue   # these need a non-empty vector; with a view shorter than the prefix the model length is 0
+                    hs.append(P.Harness("dataop_%s_op%02d_%s_n%d_cxx%s" % (I, k, opname, nv, std), text, [ud], unwind=14, track=True, cap=ctx.q(600, 1200), defines=["VERIF_WHICH=%d" % k, "VERIF_N=%d" % nv],
+                                        backends=["minisat", "kissat"],
+                                        desc="dynamic_array_ref<char,%s,%s,%s>::%s on a view bound to malloc(%d), length prefix in the buffer anywhere in 0..10 (beyond the view included), vector-valid arguments: handler invoked or no access at/after p+n; no handler when old and new contents fit" % (v_, l_, "BE" if be else "LE", opname, nv),
+                                        bounds={"n": nv, "prefix": "0..10", "source_len": "0..3", "std": "c++" + std, "operation": opname}))
     return hs
+
+
+def dataop_harness(u, inst):
+    (I, v, l, en, lsz, be) = inst
+    b = r"""
+  enum { NMAX = 16, LSZ = %(lsz)d, LMAX = 10 };
+  IN_BYTES(img, NMAX); const u64 n = VERIF_N;   /* enumerated: one query per allocation size */
+  unsigned char *view = VMALLOC(n); for (unsigned i = 0; i < NMAX; i++) if (i < n) view[i] = img[i];   /* exact-size allocation */
+  u64 L = n >= LSZ ? ref_rd(img, LSZ, %(be)d) : 0;     /* the length prefix already in the buffer: any value up to LMAX, also beyond what the view can hold */
+  VASSUME(L <= LMAX);
+  IN_BYTES(s, 4); IN(u32, k); IN(u64, pos); IN(u64, pos2); IN(u64, cnt); IN(u8, v); SELECT(which);
+  VASSUME(k <= 3); VASSUME(pos <= L); VASSUME(pos2 <= L); VASSUME(cnt <= LMAX);
+  u64 NL = L; i64 ret = 0; const u64 VS = n;
+  switch (which) {
+  case 0: NL = L + 1; CALL(push_back_%(I)s(view, VS, v)); break;
+  case 1: VASSUME(L >= 1); NL = L - 1; CALL(pop_back_%(I)s(view, VS)); break;
+  case 2: NL = L + 1; CALL(ret = insert1_%(I)s(view, VS, pos, v)); break;
+  case 3: NL = L + cnt; CALL(ret = insertn_%(I)s(view, VS, pos, cnt, v)); break;
+  case 4: NL = L + k; CALL(ret = insertfw_%(I)s(view, VS, pos, s, k)); break;
+  case 5: NL = L + k; CALL(ret = insertin_%(I)s(view, VS, pos, s, k)); break;
+  case 24: NL = L + k; CALL(ret = insertsp_%(I)s(view, VS, pos, s, k)); break;
+  case 6: NL = L + k; if (k == 0) CALL(ret = insertil0_%(I)s(view, VS, pos, s)); else if (k == 1) CALL(ret = insertil1_%(I)s(view, VS, pos, s));
+          else if (k == 2) CALL(ret = insertil2_%(I)s(view, VS, pos, s)); else CALL(ret = insertil3_%(I)s(view, VS, pos, s)); break;
+  case 7: VASSUME(pos < L); NL = L - 1; CALL(ret = erase1_%(I)s(view, VS, pos)); break;
+  case 8: VASSUME(pos <= pos2); NL = L - (pos2 - pos); CALL(ret = erase2_%(I)s(view, VS, pos, pos2)); break;
+  case 9: NL = cnt; CALL(resize_%(I)s(view, VS, cnt)); break;
+  case 10: NL = cnt; CALL(resizev_%(I)s(view, VS, cnt, v)); break;
+  case 11: NL = cnt; CALL(resized_%(I)s(view, VS, cnt)); break;
+  case 12: NL = cnt; CALL(assignn_%(I)s(view, VS, cnt, v)); break;
+  case 13: NL = k; CALL(assignit_%(I)s(view, VS, s, k)); break;
+  case 23: NL = k; CALL(assignsp_%(I)s(view, VS, s, k)); break;
+  case 16: NL = k; CALL(assignrg_%(I)s(view, VS, s, k)); break;
+  case 15: NL = k; for (unsigned i = 0; i < 3; i++) if (i < k) VASSUME(s[i] != 0); s[k] = 0; CALL(assignstr_%(I)s(view, VS, s)); break;
+  case 14: NL = k; if (k == 0) CALL(assignil0_%(I)s(view, VS, s)); else if (k == 1) CALL(assignil1_%(I)s(view, VS, s));
+           else if (k == 2) CALL(assignil2_%(I)s(view, VS, s)); else CALL(assignil3_%(I)s(view, VS, s)); break;
+  case 17: NL = 0; CALL(clear_%(I)s(view, VS)); break;
+  case 19: VASSUME(pos2 < L); NL = L + 1; CALL(ret = insert1a_%(I)s(view, VS, pos, pos2)); break;
+  case 20: VASSUME(pos2 < L); NL = L + 1; CALL(pushbacka_%(I)s(view, VS, pos2)); break;
+  case 21: VASSUME(pos2 < L); NL = cnt; CALL(resizeva_%(I)s(view, VS, cnt, pos2)); break;
+  case 22: VASSUME(pos2 < L); NL = cnt; CALL(assignna_%(I)s(view, VS, cnt, pos2)); break;
+  default: VASSUME(0);
+  }
+  VASSERT(verif_aborted || !verif_oob, "<data> operation: if the assertion handler is not invoked, no byte at or beyond p+n was accessed (whatever length prefix the buffer held before)");
+  if (n >= LSZ && LSZ + L <= n && LSZ + NL <= n) VASSERT(!verif_aborted, "an operation whose old and new contents lie inside the buffer never invokes the handler");
+""" % {"lsz": lsz, "be": 1 if be else 0, "I": I}
+    return hgen.harness([u], b)
